@@ -5,7 +5,7 @@
    replayed on the real pre-fix code (notes/C13.md).  Also: witnesses showing that the
    hypotheses of kube_view_exact are needed. *)
 From Coq Require Import List ZArith Bool Lia.
-From GZ Require Import C13.Model C13.Proofs C13.ProofsB C13.ProofsC C13.ProofsD C13.ProofsF C13.ProofsG.
+From GZ Require Import C13.Model C13.Proofs C13.ProofsB C13.ProofsC C13.ProofsD C13.ProofsF C13.ProofsG C13.ProofsH.
 Import ListNotations.
 Open Scope Z_scope.
 
@@ -170,6 +170,30 @@ Proof.
   split; [|split; [|split]]; try reflexivity.
   cbn. repeat split; try lia; intros k; reflexivity.
 Qed.
+
+(* ------------------------------------------------------------------ dispatch without the copy (seeded change C13-4) *)
+(* `listeners := watcher.listeners` instead of a copy: the range goes over the live backing
+   array, which Unmonitor's in-place removal shifts.  Listeners 1 2 3; listener 1 closes
+   itself inside its own callback: listener 2 - registered all the time - is NOT called, the
+   last listener is called twice.  (Without membership changes the variant is right:
+   ProofsH.dispatch_inplace_quiet; replayed on the real code by the corpus case with hooks.) *)
+Theorem dispatch_without_copy_refuted :
+  exists ls acts l, NoDup ls /\ In l ls /\
+    (forall i, forallb (fun a => negb (leaves l a)) (acts i) = true) /\
+    count_occ Z.eq_dec (fst (dispatch_inplace ls acts)) l = 0%nat /\
+    count_occ Z.eq_dec (fst (dispatch_inplace ls acts)) 3 = 2%nat /\
+    fst (dispatch_copy ls acts) = [1; 2; 3].
+Proof.
+  exists [1; 2; 3], (fun i => match i with O => [MLeave 1] | _ => [] end), 2.
+  split; [repeat constructor; cbn; intuition lia|].
+  split; [cbn; tauto|]. split; [intros [|i]; reflexivity|].
+  repeat split; reflexivity.
+Qed.
+
+(* ... and closing a LATER listener: nobody who stays is skipped, but the last one is called twice *)
+Example dispatch_without_copy_later_listener :
+  fst (dispatch_inplace [1; 2; 3; 4] (fun i => match i with O => [MLeave 3] | _ => [] end)) = [1; 2; 4; 4].
+Proof. reflexivity. Qed.
 
 (* ------------------------------------------------------------------ kube: boundary of kube_view_exact *)
 (* Outside the informer discipline the handler is NOT exact (it unions on OnAdd and
